@@ -18,6 +18,18 @@ from .relang import DFA, Alphabet, Lang, Unsupported, collect_atoms, complement,
 import re._parser as P
 
 
+class _Subst(ast.NodeTransformer):
+    """Replace a loop variable by a string constant (unrolling any()/all() over constant characters)."""
+
+    def __init__(self, name: str, value: str) -> None:
+        self.name, self.value = name, value
+
+    def visit_Name(self, node):
+        if node.id == self.name:
+            return ast.copy_location(ast.Constant(value=self.value), node)
+        return node
+
+
 def module_regexes(model: Model, mod: ModuleInfo) -> dict[str, tuple[str, int]]:
     """name -> (pattern, flags) for module constants that are strings or re.compile(...) results."""
     out = {}
@@ -81,6 +93,10 @@ class StrLang:
         kind = view[0]
         if kind == "whole":
             return lang
+        if kind == "cond":
+            return minimise(union(inter(view[1], self.lift(lang, view[2])), inter(complement(view[1]), self.lift(lang, view[3]))))
+        if kind == "truth":
+            raise Unsupported("a truth-valued local used as a string")
         parent = view[-1]
         if kind == "strip":
             # s.strip() in lang  <=>  s in WS* . (lang & T) . WS*, T = no leading/trailing whitespace
@@ -115,19 +131,33 @@ class StrLang:
         return self.lift(minimise(here), parent)
 
     # ------------------------------------------------------------------ functions
-    def lang_true(self, fname: str) -> DFA:
-        if fname in self.memo:
-            return self.memo[fname]
+    def lang_true(self, fname: str, consts: tuple = ()) -> DFA:
+        """L_true of ``fname``; ``consts`` binds further parameters to module constants (pattern objects)."""
+        key = (fname, consts)
+        if key in self.memo:
+            return self.memo[key]
         fn = self.mod.functions.get(fname)
         if fn is None:
             raise AnalysisError(f"predicate {fname} not found in {self.mod.name}")
         node = fn.node
-        if len(node.args.args) != 1:
-            raise Unsupported(f"{fname} does not take exactly one parameter")
-        views = {node.args.args[0].arg: ("whole",)}
-        res, _ = self._block(node.body, self.L.SIGMA_STAR, views)
+        params = [a.arg for a in node.args.args + node.args.kwonlyargs]
+        bound = dict(consts)
+        free = [p for p in params if p not in bound]
+        if len(free) != 1:
+            raise Unsupported(f"{fname} does not take exactly one string parameter")
+        views = {free[0]: ("whole",)}
+        saved = (dict(self.regexes), dict(self.strings))
+        for pname, cname in bound.items():
+            if cname in saved[0]:
+                self.regexes[pname] = saved[0][cname]
+            elif cname in saved[1]:
+                self.strings[pname] = saved[1][cname]
+        try:
+            res, _ = self._block(node.body, self.L.SIGMA_STAR, views)
+        finally:
+            self.regexes, self.strings = saved
         res = minimise(res)
-        self.memo[fname] = res
+        self.memo[key] = res
         return res
 
     def _block(self, stmts, pc: DFA, views: dict):
@@ -141,10 +171,22 @@ class StrLang:
                 return union(res, inter(pc, val)), L.EMPTY
             if isinstance(st, ast.If):
                 c = self._truth(st.test, views)
-                r1, p1 = self._block(st.body, inter(pc, c), dict(views))
-                r2, p2 = self._block(st.orelse, inter(pc, complement(c)), dict(views))
+                v1, v2 = dict(views), dict(views)
+                r1, p1 = self._block(st.body, inter(pc, c), v1)
+                r2, p2 = self._block(st.orelse, inter(pc, complement(c)), v2)
                 res = union(res, union(r1, r2))
                 pc = minimise(union(p1, p2))
+                # merge what the two branches assigned
+                for name in set(v1) | set(v2):
+                    a, b = v1.get(name), v2.get(name)
+                    if a == b and a is not None:
+                        views[name] = a
+                    elif a is not None and b is not None and a[0] == "truth" and b[0] == "truth":
+                        views[name] = ("truth", minimise(union(inter(c, a[1]), inter(complement(c), b[1]))))
+                    elif a is not None and b is not None and a[0] != "truth" and b[0] != "truth":
+                        views[name] = ("cond", c, a, b)
+                    else:
+                        views.pop(name, None)
                 continue
             if isinstance(st, ast.Assign) and len(st.targets) == 1:
                 tgt, v = st.targets[0], st.value
@@ -180,6 +222,32 @@ class StrLang:
                 if isinstance(tgt, ast.Name) and isinstance(v, ast.Name) and v.id in views:
                     views[tgt.id] = views[v.id]
                     continue
+                if (
+                    isinstance(tgt, ast.Name)
+                    and isinstance(v, ast.Call)
+                    and isinstance(v.func, ast.Attribute)
+                    and v.func.attr in ("find", "index")
+                    and isinstance(v.func.value, ast.Name)
+                    and v.func.value.id in views
+                    and len(v.args) == 1
+                    and v.func.attr == "find"
+                ):
+                    views[tgt.id] = ("idx", self._const_str(v.args[0]), views[v.func.value.id], v.func.value.id)
+                    continue
+                if isinstance(tgt, ast.Name) and isinstance(v, ast.Subscript):
+                    try:
+                        views[tgt.id] = self._view_of(v, views)
+                        continue
+                    except Unsupported:
+                        pass
+                if isinstance(tgt, ast.Name) and tgt.id not in views:
+                    # a local holding a truth value (`ok = not prefix or is_w3c_prefix(prefix)`, `m = RE.fullmatch(s)`):
+                    # remember the language of inputs for which it is truthy
+                    try:
+                        views[tgt.id] = ("truth", self._truth(v, views))
+                        continue
+                    except Unsupported:
+                        pass
             if isinstance(st, ast.Pass):
                 continue
             raise Unsupported(f"statement `{ast.unparse(st)[:60]}`")
@@ -208,7 +276,22 @@ class StrLang:
 
     def _view_of(self, e, views):
         if isinstance(e, ast.Name) and e.id in views:
+            if views[e.id][0] in ("truth", "idx"):
+                raise Unsupported(f"`{e.id}` is not a string")
             return views[e.id]
+        if isinstance(e, ast.Subscript) and isinstance(e.slice, ast.Slice) and isinstance(e.value, ast.Name) and e.value.id in views and e.slice.step is None:
+            lo, hi = e.slice.lower, e.slice.upper
+            # s[:i] / s[i + len(d):] with i = s.find(d): head / tail of the partition at the first d
+            def idx_of(n):
+                return views[n.id] if isinstance(n, ast.Name) and n.id in views and views[n.id][0] == "idx" and views[n.id][3] == e.value.id else None
+
+            if lo is None and hi is not None and idx_of(hi):
+                ix = idx_of(hi)
+                return ("head", ix[1], ix[2])
+            if hi is None and isinstance(lo, ast.BinOp) and isinstance(lo.op, ast.Add) and idx_of(lo.left) and isinstance(lo.right, ast.Constant):
+                ix = idx_of(lo.left)
+                if lo.right.value == len(ix[1]):
+                    return ("tail", ix[1], ix[2])
         raise Unsupported(f"argument `{ast.unparse(e)[:40]}` is not the parameter or a partition part of it")
 
     def _truth(self, e, views) -> DFA:
@@ -217,6 +300,8 @@ class StrLang:
         if isinstance(e, ast.Constant):
             return L.SIGMA_STAR if e.value else L.EMPTY
         if isinstance(e, ast.Name) and e.id in views:
+            if views[e.id][0] == "truth":
+                return views[e.id][1]
             return self.lift(L.nonempty(), views[e.id])
         if isinstance(e, ast.UnaryOp) and isinstance(e.op, ast.Not):
             return complement(self._truth(e.operand, views))
@@ -240,6 +325,29 @@ class StrLang:
             if isinstance(o, (ast.Eq, ast.NotEq)) and isinstance(a, ast.Name) and a.id in views and isinstance(b, ast.Constant) and isinstance(b.value, str):
                 r = self.lift(L.literal(b.value), views[a.id])
                 return complement(r) if isinstance(o, ast.NotEq) else r
+            if isinstance(a, ast.Name) and a.id in views and views[a.id][0] == "idx" and isinstance(b, (ast.Constant, ast.UnaryOp)):
+                try:
+                    num = ast.literal_eval(b)
+                except Exception:  # noqa: BLE001
+                    num = None
+                ix = views[a.id]
+                present = self.lift(L.contains(ix[1]), ix[2])
+                at0 = self.lift(L.startswith(ix[1]), ix[2])
+                table = None
+                if num == -1 and isinstance(o, (ast.Eq, ast.LtE)) or num == 0 and isinstance(o, ast.Lt):
+                    table = complement(present)
+                elif num == -1 and isinstance(o, (ast.NotEq, ast.Gt)) or num == 0 and isinstance(o, ast.GtE):
+                    table = present
+                elif num == 0 and isinstance(o, ast.Eq):
+                    table = at0
+                elif num == 0 and isinstance(o, ast.NotEq):
+                    table = complement(at0)
+                elif num == 0 and isinstance(o, ast.Gt):
+                    table = inter(present, complement(at0))
+                elif num == 0 and isinstance(o, ast.LtE):
+                    table = union(complement(present), at0)
+                if table is not None:
+                    return table
             if isinstance(a, ast.Call) and isinstance(a.func, ast.Name) and a.func.id == "len" and isinstance(b, ast.Constant) and b.value == 0 and isinstance(o, (ast.Eq, ast.NotEq, ast.Gt)):
                 r = self.lift(L.EPS, self._view_of(a.args[0], views))
                 return r if isinstance(o, ast.Eq) else complement(r)
@@ -249,6 +357,38 @@ class StrLang:
                 return self._truth(e.args[0], views)
             if isinstance(f, ast.Name) and f.id in self.mod.functions and len(e.args) == 1 and not e.keywords:
                 return self.lift(self.lang_true(f.id), self._view_of(e.args[0], views))
+            if isinstance(f, ast.Name) and f.id in self.mod.functions and not e.keywords and len(e.args) >= 2:
+                # helper taking pattern constant(s) plus one string: bind the constants by name
+                callee = self.mod.functions[f.id].node
+                names = [a.arg for a in callee.args.args]
+                if len(names) == len(e.args):
+                    consts, sarg = [], None
+                    for pname, a in zip(names, e.args):
+                        if isinstance(a, ast.Name) and (a.id in self.regexes or a.id in self.strings) and a.id not in views:
+                            consts.append((pname, a.id))
+                        elif sarg is None:
+                            sarg = a
+                        else:
+                            sarg = False
+                    if sarg not in (None, False):
+                        return self.lift(self.lang_true(f.id, tuple(consts)), self._view_of(sarg, views))
+            if isinstance(f, ast.Name) and f.id in ("any", "all") and len(e.args) == 1 and isinstance(e.args[0], (ast.GeneratorExp, ast.ListComp)):
+                g = e.args[0]
+                if len(g.generators) == 1 and not g.generators[0].ifs and isinstance(g.generators[0].target, ast.Name):
+                    try:
+                        chars = self._const_str(g.generators[0].iter)
+                    except Unsupported:
+                        chars = None
+                    if chars is None and isinstance(g.generators[0].iter, (ast.Tuple, ast.List)) and all(isinstance(x, ast.Constant) and isinstance(x.value, str) for x in g.generators[0].iter.elts):
+                        chars = [x.value for x in g.generators[0].iter.elts]
+                    if chars is not None:
+                        var = g.generators[0].target.id
+                        acc = None
+                        for ch in chars:
+                            sub = ast.fix_missing_locations(_Subst(var, ch).visit(ast.parse(ast.unparse(g.elt), mode="eval").body))
+                            cur = self._truth(sub, views)
+                            acc = cur if acc is None else (union(acc, cur) if f.id == "any" else inter(acc, cur))
+                        return acc if acc is not None else (L.EMPTY if f.id == "any" else L.SIGMA_STAR)
             if isinstance(f, ast.Attribute) and f.attr in ("match", "fullmatch", "search"):
                 if isinstance(f.value, ast.Name) and f.value.id == "re" and len(e.args) == 2:
                     pat, fl = self._pattern(e.args[0])
